@@ -28,6 +28,9 @@ import (
 //	                               before EnableCaching, 1 after it, 2 CachingWithNum; form>=3: the cache options come first
 //	buildq <name> <args> <style> <expect>   style: 0 rux.M, 1 key/value pairs, 2 a new BuildRequestURL builder, 3 the ONE builder
 //	                               object of this router case, reused by every style-3 call (whatever the route)
+//	new ... mask bit 128           UseEncodedPath: the path of a `serve` op is then the ESCAPED path of the request (URL.RawPath)
+//	rereg <id>                     Router.AddRoute with the SAME *rux.Route value that `reg <id>` registered (a route with
+//	                               variables is refused: "vars: 2, groups: 1"); the accepted definition must keep working
 //	gvar <name> <regex>            rux.SetGlobalVar(name, regex) is in force during the registrations that follow in this case
 //	                               (withGlobalVars: the package-level map is restored before each op returns)
 type routeEngine struct{ name string }
@@ -159,12 +162,12 @@ func (e routeEngine) Corpus() []Case {
 				bq("home", kv("q", "1"), 3, 1), bq("a", kv("{x}", "1"), 3, 2), bq("b", kv("{x}", "k", "{y}", "2"), 3, 3), bq("a", kv("{x}", "{y}"), 3, 2)}},
 		}
 	default: // total
-		return []Case{
+		return append([]Case{
 			{Ops: []string{"new 0 0 -", regOp(1, []string{"DEL"}, "/x", false), regOp(2, []string{"G"}, "/x", false), regOp(3, []string{"GET,POST"}, "/x", false), regOp(4, []string{"get", " post "}, "/y", false), regOp(5, []string{" "}, "/z", false), regOp(6, nil, "/w", true), q(g, "/y"), q(p, "/y")}},
 			{Ops: []string{"new 0 0 -", regOp(1, nil, "/c/{id:(?:a)(b)}", false), regOp(2, nil, "/c/{id:(\\d+)}", false), regOp(3, nil, "/blog[/(new|old)]", false), regOp(4, nil, "/files[.(json|xml)]", false), q(g, "/c/ab"), q(g, "/blog"), q(g, "/blog/new"), q(g, "/files.json")}},
 			{Ops: []string{"new 0 0 -", regOp(1, nil, "/a[/b]/c", false), regOp(2, nil, "/a]", false), regOp(3, nil, "/a[[b]", false), regOp(4, nil, "/x/{id", false), regOp(5, nil, "/y/id}", false), regOp(6, nil, "/z/{}", false), q(g, "/x/{id"), q(g, "/y/id}"), q(g, "/z/{}")}},
 			{Ops: []string{"new 8 3 -", q(g, "/a/b"), q(g, "  "), regOp(1, nil, "/a/{b}", false), "reopt", q(g, "/a/b")}},
-		}
+		}, raCorpus("total")...)
 	}
 }
 
@@ -189,6 +192,13 @@ var varKinds = []varKind{
 	{"%s:[^-]{2}", []string{"ab", "12"}, []string{"a", "abc", "a-"}},
 	{"%s:\\d{4}", []string{"2024", "0001"}, []string{"202", "20245", "abcd"}},
 	{"%s:[a-z]+?", []string{"a", "abc"}, []string{"A", ""}},
+	// custom regexes built from several non-capturing groups / a top-level alternation: the leading `(?:` and the
+	// trailing `)` are not one pair
+	{"%s:(?:\\d+)-(?:\\d+)", []string{"12-34", "1-2"}, []string{"12", "1-", "a-1", ""}},
+	{"%s:(?:en)|(?:de)", []string{"en", "de"}, []string{"fr", "ende", "e", ""}},
+	{"%s:(?:\\d+)\\.(?:\\d+)", []string{"1.20", "0.1"}, []string{"1", "1x2", "1."}},
+	{"%s:(?:x|y)(?:1|2)", []string{"x1", "y2"}, []string{"x", "1x", "xy"}},
+	{"%s:(?:[a-z]+)(?:-\\d+)?", []string{"ab", "ab-12"}, []string{"ab-", "-1", "AB"}},
 }
 
 var globalNames = []struct {
@@ -533,6 +543,9 @@ func (e routeEngine) genTotal(r *Rand, tier string) Case {
 		}
 		ops = append(ops, regOp(i, ms, pat, r.Chance(1, 15)))
 		pats = append(pats, pat)
+		if strings.Contains(pat, "{") && r.Chance(1, 12) { // the same *Route value is registered once more
+			ops = append(ops, fmt.Sprintf("rereg %d", i))
+		}
 		if r.Chance(1, 10) {
 			ops = append(ops, "reopt")
 		}
@@ -565,6 +578,8 @@ type routeImpl struct {
 	rbShared *rux.BuildRequestURL
 	raGvars  [][2]string // `gvar` ops of the case so far: in force (withGlobalVars) during every registration that follows
 	raNil    string      // nil-ness of the params map the last lookup handed out / the last handler saw ("" = none)
+	raEnc    bool        // the router uses the escaped request path (mask bit 128)
+	raRegs   map[int][2]*rux.Route // the *Route values the `reg` ops registered: main router, twin
 }
 
 func fmtParams(ps rux.Params) string {
@@ -624,6 +639,9 @@ func newRouter(mask, cap int, icpt string, caching bool) *rux.Router {
 	if mask&4 != 0 {
 		opts = append(opts, rux.HandleMethodNotAllowed)
 	}
+	if mask&128 != 0 {
+		opts = append(opts, rux.UseEncodedPath)
+	}
 	if caching {
 		opts = append(opts, rux.CachingWithNum(uint16(cap)))
 	}
@@ -671,6 +689,13 @@ func (im *routeImpl) quick(r *rux.Router, m, p string) string {
 func (im *routeImpl) serve(r *rux.Router, m, p string) string {
 	w := httptest.NewRecorder()
 	req := &http.Request{Method: m, URL: &url.URL{Path: p}, Header: http.Header{}, Proto: "HTTP/1.1", ProtoMajor: 1, ProtoMinor: 1}
+	if im.raEnc { // UseEncodedPath: p is the escaped path of the request
+		u, ok := raEscapedURL(p)
+		if !ok {
+			return "harness: not the escaped path of a request"
+		}
+		req.URL = u
+	}
 	r.ServeHTTP(w, req)
 	return fmt.Sprintf("%d %s %s", w.Code, hx(w.Header().Get("Allow")), hx(w.Body.String()))
 }
@@ -704,6 +729,8 @@ func (e routeEngine) Run(ops []string) (ans []string, oracle []string) {
 				im.accepted = 0
 				im.byID = map[int]*rux.Route{}
 				im.raGvars = nil
+				im.raEnc = mask&128 != 0
+				im.raRegs = map[int][2]*rux.Route{}
 				return "ok"
 			})
 		case "reg":
@@ -731,6 +758,9 @@ func (e routeEngine) Run(ops []string) (ans []string, oracle []string) {
 				}
 				withGlobalVars(im.raGvars, func() { im.r.AddRoute(rt) })
 				im.accepted++
+				if im.raRegs != nil {
+					im.raRegs[id] = [2]*rux.Route{rt, nil}
+				}
 				start, _, regex, names := rt.VerifRouteInfo()
 				if regex == "" {
 					return "ok " + hx(rt.Path()) + " ;; S"
@@ -764,6 +794,9 @@ func (e routeEngine) Run(ops []string) (ans []string, oracle []string) {
 						trt.Use(mw)
 					}
 					withGlobalVars(im.raGvars, func() { im.twin.AddRoute(trt) })
+					if pr, ok := im.raRegs[id]; ok && pr[0] != nil {
+						im.raRegs[id] = [2]*rux.Route{pr[0], trt}
+					}
 					return ""
 				})
 			}
@@ -960,6 +993,8 @@ func (e routeEngine) Run(ops []string) (ans []string, oracle []string) {
 					oracle = append(oracle, fmt.Sprintf("C15 round trip%s: BuildURL(%q, %v=%v) gave path %q, which is routed to %s instead of route %d with these values", shape, name, ks, vs, built, im.quick(im.r, "GET", built), expect))
 				}
 			}
+		case "rereg":
+			a = im.raRereg(atoi(f[1]))
 		case "gvar":
 			if len(f) != 3 {
 				a = "bad-op"
@@ -1075,7 +1110,7 @@ func (e routeEngine) genURL(r *Rand, tier string) Case {
 		var kvs []string
 		for _, p := range g.levels[0] {
 			if p.v != nil {
-				v := r.Pick(p.v.vals)
+				v := raSlashyValue(r, p.v, r.Pick(p.v.vals))
 				if v == "" { // `{all}` may be empty, which changes the shape of the path: keep it non-empty here
 					v = "z"
 				}
@@ -1085,6 +1120,7 @@ func (e routeEngine) genURL(r *Rand, tier string) Case {
 		for k := r.Intn(3); k > 0; k-- {
 			kvs = append(kvs, hx(r.Pick([]string{"q", "page", "a b", "é", "x&y"}))+"="+hx(r.Pick([]string{"1", "a b", "é", "x&y=z", "", "%"})))
 		}
+		kvs = raBareKeys(r, g, kvs)
 		r.Shuffle(len(kvs), func(i, j int) { kvs[i], kvs[j] = kvs[j], kvs[i] })
 		// a key must not repeat (map argument)
 		seen := map[string]bool{}
